@@ -6,6 +6,7 @@ pub mod c06;
 pub mod c06_l2;
 pub mod c07;
 pub mod c07_l2;
+pub mod c18;
 
 use crate::engine::Run;
 
@@ -16,6 +17,7 @@ pub fn dispatch(run: &mut Run) -> bool {
     "C05" => c05::run(run),
     "C06" => c06::run(run),
     "C07" => c07::run(run),
+    "C18" => c18::run(run),
     _ => return false,
   }
   true
